@@ -161,3 +161,13 @@ def run(ctx, eng):
     # cells of the connection machine agree with the role reference
     from . import roles
     roles.compare_conn(eng, ctx, 'FSM.conn', inputs={'SEND_PING', 'RECV_PING'})
+    # an ACK that was queued is only ever discarded together with everything
+    # else, when the peer's GOAWAY arrives (C19): nothing else inside the
+    # library empties or rewinds the output buffer
+    callers = sorted({f.qual for f, _ in cm.find_funcs_calling(
+        eng, 'clear_outbound_data_buffer')})
+    ctx.ob('OWN.discard', 'connection.H2Connection.clear_outbound_data_buffer',
+           'internal callers', callers ==
+           ['connection.H2Connection._receive_goaway_frame'],
+           'queued output is dropped only on a received GOAWAY (found %s)'
+           % [c.split('.')[-1] for c in callers])
